@@ -200,6 +200,9 @@ MACRO_SETS = [
     # the same macro name under several modules, module names that are prefixes of each other
     [("log", "info"), ("tracing", "info"), ("log", "warn"), ("slog", "warn"), ("logger", "info")],
     [("a::b", "note"), ("a", "note"), ("b", "note"), ("a::b::c", "warn")],
+    # names that are suffixes / prefixes / repetitions of each other, the shorter one listed first and listed last
+    [("log", "warn"), ("app", "audit_warn"), ("app", "warn_audit"), ("log", "w"), ("log", "rn")],
+    [("m", "ooo"), ("m", "oo"), ("m", "o"), ("n", "o"), ("m::n", "o")],
 ]
 
 
